@@ -234,7 +234,13 @@ func msgsOnly(pk []string) []string {
 // callback runs on the transport's own writer goroutine) on a real polling session, graceful
 // or forced: the close is carried out -- the client's next poll is answered with the close
 // packet (or released), the session closes exactly once with 'forced close', nothing hangs.
-func VerifH_C12_close_from_send_callback() {
+func VerifH_C12_close_from_send_callback() { closeFromSendCallback() }
+
+// C18: a send callback may call Close on the session without deadlocking it -- on the real
+// polling transport, whose callbacks run on its writer goroutine.
+func VerifH_C18_close_from_send_callback_polling() { closeFromSendCallback() }
+
+func closeFromSendCallback() {
 	// (not under virtual time: a writer goroutine stuck on a lock would stall the virtual clock
 	// natively instead of failing the assertions below; no timer matters within this script)
 	func() {
